@@ -23,6 +23,8 @@ import traceback
 
 ROOT = os.path.dirname(os.path.dirname(os.path.abspath(__file__)))
 MAX_VIOL_PER_SHARD = 25
+SA_DIR = os.path.join(os.environ["VF_REPO"], "lib", "sqlalchemy") if os.environ.get("VF_REPO") else "/repo/lib/sqlalchemy"
+REPO = os.environ.get("VF_REPO") or "/repo"
 
 
 def h64(obj) -> int:
@@ -220,6 +222,7 @@ def classify_crash(tb_text):
     harness error (exit 2, never a VIOLATION line)"""
     import re
 
+    tb_text = tb_text.replace(SA_DIR, "/repo/lib/sqlalchemy")
     frames = re.findall(r'File "([^"]+)", line \d+, in (\S+)', tb_text)
     if not frames:
         return None
